@@ -5,7 +5,7 @@ ROOT = os.path.dirname(os.path.dirname(os.path.abspath(__file__)))
 run = "--run" in sys.argv
 ids = [a for a in sys.argv[1:] if not a.startswith("--")]
 for pid in ids:
-    for k in (1, 2):
+    for k in [int(x) for x in os.environ.get("SEED_KS", "1 2").split()]:
         src = f"/tmp/mut/{pid}/_seed/{k}"
         if not os.path.exists(f"{src}/patch.diff"):
             continue
@@ -17,7 +17,7 @@ for pid in ids:
         conf = open(f"{src}/confirm.txt").read().split("\n") if os.path.exists(f"{src}/confirm.txt") else []
         meta = dict(property=pid, origin="independent sub-agent given only the property text and a scratch worktree of the pinned tree",
                     summary=meta.get("summary"), needs=meta.get("needs"), files=meta.get("files"),
-                    confirmed_by_me=dict(worktree=f"/tmp/mut/{pid} (pinned commit 088b5b7, removed afterwards)", lines=[c for c in conf if c],
+                    confirmed_by_me=dict(worktree=f"/tmp/mut/{pid} (" + os.environ.get("SEED_BASE", "pinned commit 088b5b7") + ", removed afterwards)", lines=[c for c in conf if c],
                                          command="tools/confirm_seeds.sh: demo on clean tree; git apply patch; full pytest suite; demo with patch; git checkout"))
         if run:
             scr = tempfile.mkdtemp(prefix="scr.", dir="/tmp")
